@@ -182,12 +182,12 @@ def check_convert_helper(ctx, rule):
     f = prog.fn(codec.TRY_ARRAY_CONVERT)
     rt = Prov(f).return_term()
     ok = False
-    good = [x for x in (rt[1] if rt[0] == "phi" else [rt]) if is_call(x, "core::iter::Iterator::collect")]
+    good = [x for x in (rt[1] if rt[0] == "phi" else [rt]) if is_call(x, "core::iter::traits::iterator::Iterator::collect")]
     if len(good) == 1:
         m = good[0][2][0]
-        if is_call(m, "core::iter::Iterator::map") and m[2][1] == ("param", 1):
+        if is_call(m, "core::iter::traits::iterator::Iterator::map") and m[2][1] == ("param", 1):
             it = m[2][0]
-            if is_call(it, "core::iter::IntoIterator::into_iter"):
+            if is_call(it, "core::iter::traits::collect::IntoIterator::into_iter"):
                 src = it[2][0]
                 ok = src[0] == "tryok" and is_call(src[1], codec.TRY_ARRAY) and src[1][2] == (("param", 0),)
     ctx.ob(rule, "elementwise-helper", ok, "try_as_array_then_convert applies the converter to each element of the array in order (into_iter().map(f).collect())",
